@@ -42,3 +42,11 @@ known("C02","C02-number-sort-key-text-order","Query returns items with number-ty
  ["C02|HR(S,N)+GSI(g,n)|Query|base|order|N|explained-by-text-order=true@v1","C02|HR(S,N)+GSI(g,n)|Query|base|order|N|explained-by-text-order=true@v2",
   "C02|HR(S,N)+GSI(g,n)|Query|index|order|N|explained-by-text-order=true@v1","C02|HR(S,N)+GSI(g,n)|Query|index|order|N|explained-by-text-order=true@v2"],
  {"history":["CreateTable tab (h:S, r:N)","PutItem {h:p,r:2}","PutItem {h:p,r:10}"],"op":"Query h = :p -> [10, 2]"})
+fixed("C17","C17-nil-deref-optional-fields","no nil dereference on a Query without key condition","v1 Query without KeyConditionExpression and v2 UpdateItem without UpdateExpression crashed with a nil dereference while the other adapter answered")
+known("C17","C17-v1-batchget-missing","the SDK v1 client does not implement BatchGetItem (nil embedded interface: runtime panic) while the v2 client does",
+ ["C17|BatchGet(1)|BatchGetItem|class|v1=PANIC(runtime)|v2=success@v1","C17|BatchGet(2)|BatchGetItem|class|v1=PANIC(runtime)|v2=success@v1","C17|BatchGet(3)|BatchGetItem|class|v1=PANIC(runtime)|v2=success@v1","C17|BatchGet(4)|BatchGetItem|class|v1=PANIC(runtime)|v2=success@v1",
+  "C17|BatchGet|BatchGetItem|class|v1=PANIC(runtime)|v2=ForcedFailure@v1","C17|BatchGet|BatchGetItem|class|v1=PANIC(runtime)|v2=InternalServerError@v1"],
+ {"op":"BatchGetItem(any input): v1 panics, v2 answers"})
+known("C17","C17-v1-sdk-input-validation","the v1 client runs the SDK's input.Validate() (table names shorter than 3 characters are rejected with InvalidParameter) while the v2 client accepts the same request: CreateTable(\"ab\") succeeds in v2 only",
+ ["C17|INVALID:CreateTable(2-character name)|CreateTable|class|v1=InvalidParameter|v2=success@v1","C17|INVALID:CreateTable(empty name)|CreateTable|class|v1=InvalidParameter|v2=success@v1","C17|INVALID:Put(empty table name)|PutItem|class|v1=InvalidParameter|v2=ResourceNotFoundException@v1"],
+ {"op":"CreateTable name 'ab' (h:S, PAY_PER_REQUEST): v1 InvalidParameter, v2 success"})
